@@ -138,30 +138,30 @@ func collectModels(prog *ssa.Program) map[string]*ssa.Function {
 }
 
 type HarnessResult struct {
-	Name        string
-	Pkg         string
-	Paths       int
-	Ends        map[string]int
-	Inconcl     map[string]int
-	Panics      map[string]int
-	Obligations int
-	Discharged  int
-	Nontrivial  int
-	Violations  []AssertRes
-	Unknown     []AssertRes
-	ByLabel     map[string][2]int
-	Reached     map[string]int
+	Name         string
+	Pkg          string
+	Paths        int
+	Ends         map[string]int
+	Inconcl      map[string]int
+	Panics       map[string]int
+	Obligations  int
+	Discharged   int
+	Nontrivial   int
+	Violations   []AssertRes
+	Unknown      []AssertRes
+	ByLabel      map[string][2]int
+	Reached      map[string]int
 	MissingReach []string
-	Queries     int
-	CacheHits   int
-	SolverS     float64
-	PrecQ       int
-	PrecS       float64
-	WallS       float64
-	Samples     []string
-	Functions   []map[string]interface{}
-	ModelsHit   map[string]int
-	Overflow    int
+	Queries      int
+	CacheHits    int
+	SolverS      float64
+	PrecQ        int
+	PrecS        float64
+	WallS        float64
+	Samples      []string
+	Functions    []map[string]interface{}
+	ModelsHit    map[string]int
+	Overflow     int
 }
 
 func defaultCfg() Config {
@@ -226,6 +226,11 @@ func runHarness(l *Loaded, pkgPath, name string, cfg Config, reach []string) (*H
 	}
 	e.Pool.CloseAll()
 	hr.WallS = time.Since(t0).Seconds()
+	if os.Getenv("VERIF_SLOWLOG") != "" {
+		for l, n := range e.PrecByLabel {
+			fmt.Fprintf(os.Stderr, "PRECISE x%d %s\n", n, l)
+		}
+	}
 	hr.Functions = e.FunctionsEncoded()
 	return hr, nil
 }
